@@ -10,6 +10,6 @@ CONSTANTS
   Video <- Vid3
   NoBtrt <- T3
   RecordHist = FALSE
-INVARIANTS NoPanic Listed Bounded TypeOK
+INVARIANTS SyncNoPanic Listed SyncBounded TypeOK
 PROPERTIES NewestMono
 CONSTRAINT FirstBeforeSecond
